@@ -131,7 +131,7 @@ add('c02-trough-not-renegated', S, "        max_locs, max_ext = _find_extrema(-X
 add('c02-one-sided-pad', S, "    ret_max_locs = np.pad(max_locs, pad_width, loc_pad_mode, **loc_pad_opts)\n\n    # Pad peak magnitudes\n    ret_max_ext = np.pad(max_ext, pad_width, mag_pad_mode, **mag_pad_opts)",
     "    ret_max_locs = np.pad(max_locs, (pad_width, 0), loc_pad_mode, **loc_pad_opts)\n\n    # Pad peak magnitudes\n    ret_max_ext = np.pad(max_ext, (pad_width, 0), mag_pad_mode, **mag_pad_opts)",
     'breaking', ['C02'], 'C02.R3')
-add('c02-rilling-abs-lost', S, "    amp = np.abs(upper_env-lower_env)/2", "    amp = (upper_env-lower_env)/2", 'breaking', ['C02', 'C04'], 'R')
+add('c02-rilling-abs-lost', S, "    amp = np.abs(upper_env-lower_env)/2", "    amp = (upper_env-lower_env)/2", 'breaking', ['C04'], 'C04.R3')
 add('c02-greater-equal', S, "    ext_locs = signal.argrelextrema(X, np.greater, order=1)[0]", "    ext_locs = signal.argrelextrema(X, np.greater_equal, order=1)[0]",
     'breaking', ['C02', 'C05'], 'R')
 add('c02-energy-unbalanced', S, "    return imf_energy-resid_energy", "    return imf_energy-2*resid_energy", 'breaking', ['C02', 'C04'], 'R')
